@@ -214,3 +214,36 @@ Fixpoint cs_nondecreasing (prev : Z) (l : list Z) : bool :=
   | [] => true
   | x :: t => Z.leb prev x && cs_nondecreasing x t
   end.
+
+(* the threads after a schedule (cs_run gives the memory values) *)
+Fixpoint cs_final (cas : bool) (mem : Z) (ts : list cs_thread) (sched : list nat) : Z * list cs_thread :=
+  match sched with
+  | [] => (mem, ts)
+  | i :: tl =>
+      match nth_error ts i with
+      | None => cs_final cas mem ts tl
+      | Some t => let '(mem', t') := cs_thread_step cas mem t in cs_final cas mem' (cs_update i t' ts) tl
+      end
+  end.
+
+(* A variant of the compare-and-swap loop that does NOT load again after a failed swap
+   (cur := load; for arg > cur { if CAS(cur, arg) { return } }): the thread stays where it is. *)
+Definition cs_stale_step (mem : Z) (t : cs_thread) : Z * cs_thread :=
+  match cs_at t with
+  | CsStart => (mem, {| cs_arg := cs_arg t; cs_at := CsLoaded mem |})
+  | CsLoaded v =>
+      if Z.ltb v (cs_arg t) then
+        if Z.eqb mem v then (cs_arg t, {| cs_arg := cs_arg t; cs_at := CsDone |}) else (mem, t)
+      else (mem, {| cs_arg := cs_arg t; cs_at := CsDone |})
+  | CsDone => (mem, t)
+  end.
+
+Fixpoint cs_stale_final (mem : Z) (ts : list cs_thread) (sched : list nat) : Z * list cs_thread :=
+  match sched with
+  | [] => (mem, ts)
+  | i :: tl =>
+      match nth_error ts i with
+      | None => cs_stale_final mem ts tl
+      | Some t => let '(mem', t') := cs_stale_step mem t in cs_stale_final mem' (cs_update i t' ts) tl
+      end
+  end.
